@@ -1,18 +1,28 @@
 ----------------------------- MODULE MC_IggyAuth -----------------------------
 (* Bounded instance of IggyAuth: every history over 2 users x 2 passwords x 2 tokens x 2 user connections. *)
 EXTENDS IggyAuth, Json
-CONSTANTS Names, Pwds, Toks, Conns, MaxNow, MaxOps, Ops
+CONSTANTS Names, Pwds, Toks, Conns, MaxNow, MaxOps, Ops,
+          Seeded,       \* TRUE: histories start after "ann created (p1, active), logged in on connection 2, holds token 1" (script generation)
+          OnlyAllowed   \* TRUE: only operations the specification allows are tried (script generation from the seeded state)
 VARIABLES used,  \* ghost: token ids already issued (a token id is issued once)
           hist
 mvars == <<vars, used, hist>>
 Record(op) == hist' = Append(hist, op)
 RootConn == 1
 
-MCInit == /\ users = {<<Root, "iggy", TRUE>>} /\ toks = {} /\ now = 0
-          /\ sess = [c \in Conns \cup {RootConn} |-> IF c = RootConn THEN Root ELSE ""]
-          /\ used = {} /\ hist = <<>>
+SeedHist == << [op |-> "create_user", c |-> RootConn, name |-> "ann", pwd |-> "p1", active |-> TRUE],
+               [op |-> "login", c |-> 2, name |-> "ann", pwd |-> "p1"],
+               [op |-> "create_pat", c |-> 2, tok |-> 1, ttl |-> 0] >>
+MCInit == /\ now = 0
+          /\ IF Seeded
+             THEN /\ users = {<<Root, "iggy", TRUE>>, <<"ann", "p1", TRUE>>} /\ toks = {<<1, "ann", 0>>}
+                  /\ sess = [c \in Conns \cup {RootConn} |-> IF c = RootConn THEN Root ELSE IF c = 2 THEN "ann" ELSE ""]
+                  /\ used = {1} /\ hist = SeedHist
+             ELSE /\ users = {<<Root, "iggy", TRUE>>} /\ toks = {}
+                  /\ sess = [c \in Conns \cup {RootConn} |-> IF c = RootConn THEN Root ELSE ""]
+                  /\ used = {} /\ hist = <<>>
 
-Try(name, can, act, rec) == name \in Ops /\ (IF can THEN act ELSE Refused) /\ UNCHANGED used /\ Record(rec)
+Try(name, can, act, rec) == name \in Ops /\ (OnlyAllowed => can) /\ (IF can THEN act ELSE Refused) /\ UNCHANGED used /\ Record(rec)
 
 MCLogin == \E c \in Conns : \E n \in Names : \E p \in Pwds :
     Try("login", PasswordValid(n, p), Login(c, n, p), [op |-> "login", c |-> c, name |-> n, pwd |-> p])
@@ -31,6 +41,7 @@ MCDeleteUser == \E n \in Names :
     Try("delete_user", CanDeleteUser(RootConn, n), DeleteUser(n), [op |-> "delete_user", c |-> RootConn, name |-> n])
 MCCreatePat == /\ "create_pat" \in Ops
                /\ \E c \in Conns : \E t \in Toks \ used : \E ttl \in {0, 1} :
+                    /\ (OnlyAllowed => CanCreateToken(c))
                     /\ IF CanCreateToken(c) THEN CreateToken(c, t, ttl) /\ used' = used \cup {t} ELSE Refused /\ UNCHANGED used
                     /\ Record([op |-> "create_pat", c |-> c, tok |-> t, ttl |-> ttl])
 MCDeletePat == \E c \in Conns : \E t \in used :
